@@ -343,6 +343,60 @@ func CheckC02(run *harness.Run) int {
 			s.Signers = c.pickSigners(pm, 0)
 			c.judge(wd, "after a failed committee lookup: signers are a quorum of the previous height's committee", blk, c.build(s, prev), prevBlk, prev, "after-failed-lookup")
 		}
+		// the committee request is answered with the context's error because the caller's context was cancelled while it was
+		// pending (a context-aware membership contract): whatever the certificate, that is not an acceptance
+		if wi%4 == 1 {
+			for _, variant := range []int{0, 1, 2} {
+				s := base(0)
+				what := "genuine certificate"
+				switch variant {
+				case 1:
+					s.Signers = []string{c.ids[13]}
+					s.SigMode = []int{1, 0, 0, 0, 0}
+					what = "one outsider with a made-up signature"
+				case 2:
+					s.Signers = nil
+					what = "no signers"
+				}
+				proof := c.build(s, prev)
+				ctx, cancel := context.WithCancel(context.Background())
+				wd.mem.OnProofRequest = func(rctx context.Context, hh uint64) error { cancel(); <-rctx.Done(); return rctx.Err() }
+				var err error
+				var p interface{}
+				func() {
+					defer func() { p = recover() }()
+					err = wd.w.ValidateBlockConsensus(ctx, blk, proof, prevBlk, prev, variant == 2)
+				}()
+				wd.mem.OnProofRequest = nil
+				cancel()
+				c.evals++
+				if p != nil {
+					c.bad("validate-block-consensus-panics", fmt.Sprintf("committee request cancelled while pending: %v", p), map[string]interface{}{"committee": wd.desc})
+				} else if err == nil {
+					c.bad("accepted-although-the-committee-request-was-cancelled", fmt.Sprintf("ValidateBlockConsensus returned nil (%s) although the committee request ended with the context's error after the caller's context was cancelled while it was pending: nothing was checked against a committee", what), map[string]interface{}{"committee": wd.desc, "proof_hex": fmt.Sprintf("%x", proof)})
+				}
+			}
+		}
+		// proof bytes whose size prefixes wrap past 2^32: every aligned word of a genuine certificate replaced by ffffffff in turn,
+		// and short strings that start with such a prefix (an error, never a crash — also not out of the error path itself)
+		if wi%16 == 2 {
+			g := c.build(base(0), prev)
+			for off := 0; off+4 <= len(g) && off < 64; off += 4 {
+				m := append([]byte{}, g...)
+				copy(m[off:], []byte{0xff, 0xff, 0xff, 0xff})
+				c.judge(wd, fmt.Sprintf("word at offset %d of a genuine certificate replaced by ffffffff", off), blk, m, prevBlk, prev, "wrapped-size-prefix")
+			}
+			for n := 4; n <= 40; n += 4 {
+				m := make([]byte, n)
+				copy(m, []byte{0xff, 0xff, 0xff, 0xff})
+				c.judge(wd, fmt.Sprintf("ffffffff followed by %d zero bytes", n-4), blk, m, prevBlk, prev, "wrapped-size-prefix")
+				if n >= 8 {
+					m2 := make([]byte, n)
+					copy(m2[4:], []byte{0xff, 0xff, 0xff, 0xff})
+					c.judge(wd, fmt.Sprintf("zero word, ffffffff, %d zero bytes", n-8), blk, m2, prevBlk, prev, "wrapped-size-prefix")
+				}
+			}
+		}
 		// the caller hands over a prevBlock that is not the predecessor (an older block, or none): the certificate is still judged
 		// against the committee of the block's own height (worlds whose committee contract is keyed by the height)
 		if !wd.mem.KeyedByRefTime && wi%3 == 0 {
